@@ -10,8 +10,15 @@ env = dict(os.environ, PYTHONPATH=str(wt))
 def sh(cmd, **kw):
     return subprocess.run(cmd, shell=True, capture_output=True, text=True, **kw)
 sh(f"git -C {wt} checkout -- fakesnow")
+head = sh("git -C /repo rev-parse HEAD").stdout.strip()
+sh(f"git -C {wt} checkout -q --detach {head}")
 r = sh(f"git -C {wt} apply {src}/patch.diff")
-assert r.returncode == 0, r.stderr
+if r.returncode != 0:
+    r = sh(f"git -C {wt} apply -3 {src}/patch.diff")
+if r.returncode != 0:
+    print(json.dumps({"pid": pid, "var": var, "confirmed": False, "detected": False, "lines": ["PATCH DOES NOT APPLY to current /repo HEAD: " + r.stderr[-300:]], "stderr": ""}))
+    sh(f"git -C {wt} reset -q --hard {head}")
+    sys.exit(0)
 try:
     t = sh(f"cd {wt} && /venv/bin/python -m pytest -q -p no:cacheprovider -x --deselect tests/test_fakes.py::test_get_result_batches --deselect tests/test_fakes.py::test_get_result_batches_dict 2>&1 | tail -3", env=env)
     tests_ok = bool(re.search(r"\b196 passed", t.stdout)) and not re.search(r"\b\d+ (failed|error)", t.stdout)
